@@ -19,6 +19,8 @@ EXTENDS Naturals, Sequences, FiniteSets, TLC
 Encrypted(k) ==
   CASE k.kind = "ooxml"    -> TRUE
     [] k.kind = "plaincfb" -> FALSE
+    \* (k.protect: structure / window protection records PROTECT, PASSWORD with a non-zero verifier,
+    \*  WINDOWPROTECT -- protection against editing, not encryption)
     [] k.kind = "biff"     -> k.filepass # "none"
     [] k.kind = "ods"      -> \E i \in 1..Len(k.entries) : k.entries[i]
     [] OTHER -> FALSE
